@@ -43,11 +43,11 @@ def r1_overrides(chk: Check) -> None:
     skn = [name_of(b, "v") for n_, b in pfind("$v = $X", ct.node) if isinstance(b["X"], ast.Dict) and any(k is None and unparse(v) == "config.as_strategy_kwargs" for k, v in zip(b["X"].keys, b["X"].values))]
     chk.decide(bool(skn), "C14.R1", ct, "strategy_kwargs includes **config.as_strategy_kwargs", "explicit overrides are not forwarded to operation.as_strategy", ct.loc())
     asg = [c for c in body_calls(ct, into_nested=True) if last_attr(c) == "as_strategy"]
-    chk.decide(bool(asg) and any(k.arg is None and (unparse(k.value) in skn or unparse(k.value) == "config.as_strategy_kwargs") for k in asg[0].keywords), "C14.R1", ct, "operation.as_strategy(**strategy_kwargs)", "strategy is built without the explicit overrides", ct.loc())
+    chk.decide(bool(asg) and any(k.arg is None and (unparse(k.value) in skn or ceq(ct, k.value, 'config.as_strategy_kwargs')) for k in asg[0].keywords), "C14.R1", ct, "operation.as_strategy(**strategy_kwargs)", "strategy is built without the explicit overrides", ct.loc())
     ex = [c for c in body_calls(ct) if last_attr(c) == "add_examples"]
-    chk.decide(bool(ex) and any(k.arg is None and (unparse(k.value) in skn or unparse(k.value) == "config.as_strategy_kwargs") for k in ex[0].keywords), "C14.R1", ct, "add_examples(**strategy_kwargs)", "examples are built without the explicit overrides", ct.loc())
+    chk.decide(bool(ex) and any(k.arg is None and (unparse(k.value) in skn or ceq(ct, k.value, 'config.as_strategy_kwargs')) for k in ex[0].keywords), "C14.R1", ct, "add_examples(**strategy_kwargs)", "examples are built without the explicit overrides", ct.loc())
     cov = [c for c in body_calls(ct) if last_attr(c) == "add_coverage"]
-    chk.decide(bool(cov) and any(unparse(a) == "config.as_strategy_kwargs" for a in cov[0].args), "C14.R1", ct, "add_coverage(..., config.as_strategy_kwargs, ...)", "coverage cases are built without the explicit overrides", ct.loc())
+    chk.decide(bool(cov) and any(ceq(ct, a, 'config.as_strategy_kwargs') for a in cov[0].args), "C14.R1", ct, "add_coverage(..., config.as_strategy_kwargs, ...)", "coverage cases are built without the explicit overrides", ct.loc())
     # coverage: merge after generation, user value wins
     ac = P.func(f"{BUILDER}:add_coverage")
     g = cfg_of(ac)
@@ -145,7 +145,7 @@ def r2_network_config(chk: Check) -> None:
                 chk.decide(have[k] == v, "C14.R2", tk, f"transport_kwargs[{k!r}] = {v}", f"`{k}` receives {have[k]}", tk.loc())
     tf = P.func(f"{UNIT_EX}:test_func")
     calls_ = [c for c in body_calls(tf) if dotted(c.func) == "case.call"]
-    chk.decide(bool(calls_) and any(k.arg is None and unparse(k.value) == "ctx.transport_kwargs" for k in calls_[0].keywords), "C14.R2", tf, "case.call(**ctx.transport_kwargs)", "unit-phase requests are sent without the configured session/headers/credentials", tf.loc())
+    chk.decide(bool(calls_) and any(k.arg is None and ceq(tf, k.value, 'ctx.transport_kwargs') for k in calls_[0].keywords), "C14.R2", tf, "case.call(**ctx.transport_kwargs)", "unit-phase requests are sent without the configured session/headers/credentials", tf.loc())
     loop = P.maybe_func(f"{ST_EX}:_execute_state_machine_loop") or P.func(f"{ST_EX}:execute_state_machine_loop")
     gck = loop.module.functions.get(loop.qualname.split(":", 1)[1] + "._InstrumentedStateMachine.get_call_kwargs")
     tkv = [b["X"] for n_, b in pfind("$v = $X", loop.node) if unparse(b["X"]) == "engine.transport_kwargs"]
@@ -205,7 +205,7 @@ def r3_precedence(chk: Check) -> None:
     chk.decide(ok, "C14.R3", sc, "serialize_case: final_headers = prepare_headers(case, headers)", "the caller's headers are not merged into the request", sc.loc())
     gpv = P.func("specs/openapi/_hypothesis.py:get_parameters_value")
     ex = [c for c in body_calls(gpv) if last_attr(c) == "get_parameters_strategy" and kwarg(c, "exclude") is not None]
-    chk.decide(bool(ex) and unparse(kwarg(ex[0], "exclude")) == "value.keys()", "C14.R3", gpv, "explicit names excluded from generation (exclude=value.keys())", "a generated value can collide with (and overwrite) an explicitly provided one", gpv.loc())
+    chk.decide(bool(ex) and ceq(gpv, kwarg(ex[0], "exclude"), 'value.keys()'), "C14.R3", gpv, "explicit names excluded from generation (exclude=value.keys())", "a generated value can collide with (and overwrite) an explicitly provided one", gpv.loc())
 
 
 # --------------------------------------------------------------------------------------------- R4
